@@ -70,6 +70,52 @@ pub fn eval_case(case: &Case, st: &mut Stats) -> Vec<Fail> {
     if !fails.is_empty() {
         return fails;
     }
+    // "only removes redundant declarations": a name that its scope (the declarations of the whole tree, those above
+    // the call target included) expressed directly before the call - an element without namespace where no default
+    // namespace is in effect, a namespaced element under some prefix or the default bound to its namespace, a
+    // namespaced attribute under a non-empty prefix - is still expressed directly afterwards. (to_string cannot see
+    // this: the serialiser repairs a lost xmlns="" on its own.)
+    {
+        fn direct(a: &A, outer: &Scope, out: &mut Vec<(String, bool)>) {
+            match a.k {
+                K::Elem => {
+                    let s = enter(outer, a);
+                    let ok = if a.ns.is_empty() { !s.contains_key("") } else { s.values().any(|u| *u == a.ns) };
+                    out.push((format!("element-{}", if a.ns.is_empty() { "without-namespace" } else { "namespaced" }), ok));
+                    for at in &a.attrs {
+                        if !at.ns.is_empty() {
+                            out.push(("attribute".into(), attr_expressible(&s, &at.ns)));
+                        }
+                    }
+                    for c in &a.ch {
+                        direct(c, &s, out);
+                    }
+                }
+                K::Doc => {
+                    for c in &a.ch {
+                        direct(c, outer, out);
+                    }
+                }
+                _ => {}
+            }
+        }
+        let (mut b, mut a) = (vec![], vec![]);
+        direct(&before, &base_scope(), &mut b);
+        direct(&after, &base_scope(), &mut a);
+        for ((kind, was), (_, is)) in b.iter().zip(a.iter()) {
+            if *was && !*is {
+                fails.push(Fail::new(
+                    format!("needed-declaration-removed|{}", kind),
+                    format!("{} (call on #{}) -> {}: a name that was expressed by the declarations in scope no longer is", before.show(), case.target, after.show()),
+                ));
+                break;
+            }
+        }
+        st.bump("direct_expression_checked");
+    }
+    if !fails.is_empty() {
+        return fails;
+    }
     // serialisability is kept, reparse equal modulo declarations
     // (only for trees that serialise *faithfully* before the call: to_string is Ok and its output reparses to
     // the original modulo declarations; whether serialisation is faithful at all is C10's subject)
